@@ -802,16 +802,36 @@ theorem build_sim {objs objs' : List Obj} (ho : Forall₂ ObjSim objs objs') :
 
 /-! ### `peerConns` on similar engines -/
 
+/-- sorting by name two lists of policies that agree position by position (same names) -/
+theorem forall₂_insertByName {R : NetPol → NetPol → Prop} (hn : ∀ a b, R a b → a.name = b.name)
+    {p p' : NetPol} (hp : R p p') {l l' : List NetPol} (h : Forall₂ R l l') :
+    Forall₂ R (insertByName p l) (insertByName p' l') := by
+  induction h with
+  | nil => exact .cons hp .nil
+  | @cons a b l l' hab hl ih =>
+    unfold insertByName
+    rw [← hn p p' hp, ← hn a b hab]
+    split
+    · exact .cons hp (.cons hab hl)
+    · exact .cons hab ih
+
+theorem forall₂_sortByName {R : NetPol → NetPol → Prop} (hn : ∀ a b, R a b → a.name = b.name)
+    {l l' : List NetPol} (h : Forall₂ R l l') : Forall₂ R (sortByName l) (sortByName l') := by
+  induction h with
+  | nil => exact .nil
+  | cons hab _ ih => exact forall₂_insertByName hn hab ih
+
 /-- the policies selecting a peer agree position by position -/
 theorem policiesSelecting_sim {e e' : Engine} (h : EngSim e e') {P : NetPol → Prop}
     (hg : ∀ np ∈ e.netpols, P np) (k : KPeer) (d : Dir) :
     Forall₂ (fun a b => NpSim a b ∧ P a) (e.policiesSelecting k d)
       (e'.policiesSelecting k d) := by
-  unfold policiesSelecting
   cases k with
   | ip r => exact .nil
   | pod p nso =>
-    exact (h.netpols.and_left hg).filter fun a b hab => selects_sim hab.1 p d
+    rw [policiesSelecting_pod, policiesSelecting_pod]
+    exact forall₂_sortByName (fun a b hab => hab.1.name)
+      ((h.netpols.and_left hg).filter fun a b hab => selects_sim hab.1 p d)
 
 /-- **the NetworkPolicy layer** -/
 theorem netpolConns_sim {e e' : Engine} (h : EngSim e e') (hg : ∀ np ∈ e.netpols, NpGood np)
